@@ -458,8 +458,10 @@ def g2(ctx, res):
     if bare:
         verdict = False
     elif raising:
-        verdict = all(any(not isinstance(t, str) and norm(strip_not(t, pol)[0]) == f"_is_instance({v}, self.params['types'])"
-                          and strip_not(t, pol)[1] is False for t, pol in p.conds) for p in raising)
+        def flat(p):
+            return [fg for t, pol in p.conds if not isinstance(t, str) for fg in flatten_guard(t, pol)]
+        verdict = all(any(norm(strip_not(t, pol)[0]) == f"_is_instance({v}, self.params['types'])"
+                          and strip_not(t, pol)[1] is False for t, pol in flat(p)) for p in raising)
         if not verdict and not any("_is_instance" in norm(t) for p in raising for t, pol in p.conds if not isinstance(t, str)):
             verdict = None if not any("isinstance" in norm(t) for p in raising for t, pol in p.conds if not isinstance(t, str)) else False
     res.judge(verdict, io, "if not _is_instance(value, self.params['types']): raise ValidationError",
@@ -660,37 +662,95 @@ def g3(ctx, res):
     res.judge(okp, pd, "yield every value whose pattern re.search-matches the key", reason="every matching pattern contributes")
 
 
+def _bool_or_element_cases(body, a, target=None):
+    """Abstractly run `body` for a in {True, False, <an element>} and collect,
+    per case, the values finally stored to `target` (or returned when target
+    is None).  Conditions on `a` are evaluated exactly (isinstance bool,
+    is/== True/False, truthiness for the two booleans); any other condition is
+    opaque.  -> (cases dict, opaque set)"""
+    out = {}
+    opaque = set()
+    paths = enumerate_paths(body)
+    for case in ("True", "False", "other"):
+        def ae(e, case=case):
+            ia = isinstance_atom(e)
+            if ia and ia[0] == a and ia[1] == ["bool"]:
+                return (case != "other") == ia[2]
+            c = cmp_atom(e)
+            if c and c[0] == a and c[2] in ("True", "False"):
+                if c[1] in ("is", "=="):
+                    return case == c[2]
+                if c[1] in ("is not", "!="):
+                    return case != c[2]
+            if norm(e) == a:
+                if case == "other":
+                    opaque.add("truthiness of a non-boolean " + a)
+                    return None
+                return case == "True"
+            opaque.add(norm(e))
+            return None
+
+        def value_labels(v):
+            if isinstance(v, ast.IfExp):
+                t = eval3(v.test, ae)
+                if t is True:
+                    return value_labels(v.body)
+                if t is False:
+                    return value_labels(v.orelse)
+                return value_labels(v.body) | value_labels(v.orelse)
+            if isinstance(v, ast.Subscript) and isinstance(v.value, ast.Dict) and norm(v.slice) == a:
+                for k, x in zip(v.value.keys, v.value.values):
+                    if k is not None and norm(k) == case:
+                        return value_labels(x)
+                return {"KeyError"}
+            return {norm(v)}
+        labels = set()
+        for p in paths:
+            feasible = True
+            for c in p.conds:
+                if isinstance(c[0], str):
+                    continue
+                val = eval3(c[0], ae)
+                if val is not None and val != c[1]:
+                    feasible = False
+                    break
+            if not feasible:
+                continue
+            if target is None:
+                if p.exit == "return" and p.exit_node.value is not None:
+                    labels |= value_labels(p.exit_node.value)
+                else:
+                    labels.add(p.exit)
+            else:
+                vals = [s_.value for s_ in p.stmts if isinstance(s_, (ast.Assign, ast.AnnAssign)) and s_.value is not None
+                        and any(norm(t) == target for t in (s_.targets if isinstance(s_, ast.Assign) else [s_.target]))]
+                labels |= value_labels(vals[-1]) if vals else {"none"}
+        out[case] = labels
+    return out, opaque
+
+
 def _additional_normalised(ctx, init):
-    """self.additional = {True: Element(), False: Nothing()}[additional] for
-    booleans, the value itself otherwise - possibly through a private helper."""
+    """self.additional: True -> Element(), False -> Nothing(), an element ->
+    itself - whatever the control structure, possibly through a helper."""
     a = "additional"
-    targets = [init]
+    if a not in [p.name for p in init.params]:
+        return None
     vb = V(ctx, init).body
-    # a helper h(additional) whose result is stored
+    want = {"True": {"Element()"}, "False": {"Nothing()"}, "other": {a}}
     for node, b in find("self.additional = MV_h(MV_a)", vb):
         if norm(b["MV_a"]) == a and isinstance(b["MV_h"], ast.Name):
             r = ctx.prog.resolve_in(init, b["MV_h"].id)
-            if r and r[0] == "func":
+            if r and r[0] == "func" and r[1].params:
                 h = r[1]
-                hv = V(ctx, h).body
                 hp = h.params[0].name
-                tbl, opq = decision_table(hv, ["ISBOOL"], lambda e: (("ISBOOL", isinstance_atom(e)[2]) if isinstance_atom(e) and
-                                          isinstance_atom(e)[0] == hp and isinstance_atom(e)[1] == ["bool"] else None),
-                                          lambda p: norm(p.exit_node.value) if p.exit == "return" else p.exit)
-                if opq:
-                    return None
-                return tbl == {(True,): {f"{{True: Element(), False: Nothing()}}[{hp}]"}, (False,): {hp}}
-
-    def lab(p):
-        vals = [norm(s_.value) for s_ in p.stmts if isinstance(s_, ast.Assign) and any(norm(t) == "self.additional" for t in s_.targets)]
-        return vals[-1] if vals else "none"
-    tbl, opq = decision_table(vb, ["ISBOOL"], lambda e: (("ISBOOL", isinstance_atom(e)[2]) if isinstance_atom(e) and
-                              isinstance_atom(e)[0] == a and isinstance_atom(e)[1] == ["bool"] else None), lab)
-    want = {(True,): {f"{{True: Element(), False: Nothing()}}[{a}]"}, (False,): {a}}
-    if tbl == want:
+                cases, opq = _bool_or_element_cases(V(ctx, h).body, hp)
+                wanth = {"True": {"Element()"}, "False": {"Nothing()"}, "other": {hp}}
+                return True if cases == wanth else (None if opq else False)
+    cases, opq = _bool_or_element_cases(vb, a, target="self.additional")
+    if cases == want:
         return True
-    vals = {x for labs in tbl.values() for x in labs}
-    if any("Element()" in x or "Nothing()" in x for x in vals):
+    vals = {x for labs in cases.values() for x in labs}
+    if not opq or any("Element()" in x or "Nothing()" in x for x in vals):
         return False
     return None
 
@@ -713,6 +773,13 @@ def g4(ctx, res):
         resn = name_of(b["MV_r"])
     for node, b in find(f"MV_r = [MV_x.error for MV_x in {outs} if MV_x.error]", f):
         errn = name_of(b["MV_r"])
+    # two-step forms: the successful / failed outcomes are collected first
+    for node, b in find(f"MV_s = [MV_x for MV_x in {outs} if not MV_x.error]", f):
+        for node2, b2 in find(f"MV_r = [MV_y.result for MV_y in {name_of(b['MV_s'])}]", f):
+            resn = resn or name_of(b2["MV_r"])
+    for node, b in find(f"MV_s = [MV_x for MV_x in {outs} if MV_x.error]", f):
+        for node2, b2 in find(f"MV_r = [MV_y.error for MV_y in {name_of(b['MV_s'])}]", f):
+            errn = errn or name_of(b2["MV_r"])
     res.judge(True if (resn is not None and errn is not None) else None, f, "results = successes; errors = failures",
               reason="each outcome is counted as exactly one of success / failure")
     if resn is None or errn is None:
@@ -794,45 +861,65 @@ def g4(ctx, res):
 
 
 # ---------------------------------------------------------------------- G5
+def _good_validator_loop(lp, iter_text, arg, prop):
+    """for t in <iter_text>: t(arg, prop) - nothing else that could skip a validator."""
+    if not isinstance(lp, ast.For) or norm(lp.iter) != iter_text or lp.orelse:
+        return False
+    if any(isinstance(x, (ast.Break, ast.Continue, ast.Return, ast.If, ast.Try, ast.IfExp)) for x in ast.walk(lp)):
+        return False
+    return has(f"{norm(lp.target)}({arg}, {prop})", lp.body)
+
+
+def _vc_label(p, iter_text, construct_pat, prop, arg=None):
+    """Label of a path that returns a constructed value: 'build(X)' when the
+    path runs the complete validator loop on X before, 'unvalidated(X)' when no
+    loop over the validators is on the path, 'partial(X)' when the loop on the
+    path can skip validators.  None when the exit is not a construction."""
+    if construct_pat is not None:
+        e = p.exit_node.value
+        b = match(_parse(construct_pat), e) if e is not None else None
+        if b is None:
+            return None
+        arg = norm(b["MV_x"])
+    seen = None
+    for s_ in p.stmts:
+        if isinstance(s_, tuple) and s_[0] in ("loop-enter", "loop-skip") and norm(s_[1].iter) == iter_text:
+            good = _good_validator_loop(s_[1], iter_text, arg, prop)
+            seen = "build" if good and seen in (None, "build") else "partial"
+    if seen is None:
+        return f"unvalidated({arg})"
+    return f"{seen}({arg})"
+
+
 @rule("G5", "every passed value is checked by ALL validators before it is constructed, members recursively")
 def g5(ctx, res):
     call = ctx.func("Element.__call__")
     v, prop = call.params[1].name, call.params[2].name
-    create = call.nested.get("create")
-    res.check(create is not None, call, "def create(value)", reason="validate-then-construct helper")
-    if create is None:
-        return
-    cv = create.params[0].name
-    cbody = V(ctx, create).body
-    loops = [n for n in cbody if isinstance(n, ast.For)]
-    ok = False
-    if len(loops) == 1:
-        lp = loops[0]
-        okloop = norm(lp.iter) == "self.validators" and not lp.orelse and \
-            not any(isinstance(x, (ast.Break, ast.Continue, ast.Return, ast.If, ast.Try)) for x in ast.walk(lp)) and \
-            has(f"{norm(lp.target)}({cv}, {prop})", lp.body)
-        idx = cbody.index(lp)
-        rest = cbody[idx + 1:]
-        ok = okloop and len(rest) == 1 and has(f"return self.construct({cv}, {prop})", rest) and \
-            all(not isinstance(x, (ast.Return, ast.If)) for st in cbody[:idx] for x in ast.walk(st))
-    res.check(ok, create, "for validator in self.validators: validator(value, property_); return self.construct(value, property_)",
-              reason="all validators run (no break / filter / early return) before construction")
-    # every normal exit of __call__ that hands back something other than the marker/raw default goes through create
     vcall = V(ctx, call)
-    rets = [n for n in walk_own(vcall.body) if isinstance(n, ast.Return)]
-    bad = []
-    for r in rets:
-        e = r.value
-        t = norm(e) if e is not None else "None"
-        if t in (f"create({v})", "create(self.default)", "self.default", v):
-            if t == v:
-                gs = flat_guards(Parents(vcall.body), r)
-                if not any((np_atom(tt, pp) or (None, None)) == (v, True) for tt, pp in gs):
-                    bad.append(t + " (returned without validation outside the not-passed case)")
+    labels = {}
+    for p in enumerate_paths(vcall.body):
+        if p.exit != "return":
             continue
-        bad.append(t)
-    res.check(not bad, call, "returns: create(value) | create(default) | raw default | the not-passed marker",
-              detail={"unexpected": bad}, reason="no class of passed values leaves Element.__call__ unvalidated")
+        e = p.exit_node.value
+        t = norm(e) if e is not None else "None"
+        lab = _vc_label(p, "self.validators", "self.construct(MV_x, %s)" % prop, prop)
+        if lab is not None:
+            labels.setdefault(lab, set()).add(t)
+        elif t in ("self.default",):
+            labels.setdefault("raw default", set()).add(t)
+        elif t == v:
+            np_ok = any((np_atom(tt, pp) or (None, None)) == (v, True) for c in p.conds if isinstance(c, tuple) and len(c) == 2
+                        and isinstance(c[0], ast.AST) for tt, pp in flatten_guard(c[0], c[1]))
+            labels.setdefault("marker" if np_ok else "unvalidated(%s)" % v, set()).add(t)
+        else:
+            labels.setdefault("other", set()).add(t)
+    builds = {k for k in labels if k.startswith("build(")}
+    unval = {k for k in labels if k.startswith("unvalidated(") or k.startswith("partial(")}
+    verdict = True if (builds and not unval and "other" not in labels) else (False if unval else None)
+    res.judge(verdict, call, "for validator in self.validators: validator(value, property_); return self.construct(value, property_)",
+              detail={"exits": {k: sorted(x) for k, x in labels.items()}},
+              reason="all validators run (no break / filter / early return) before construction; every exit is "
+                     "build(value) | build(default) | raw default | the not-passed marker")
     cons = ctx.cls("Element").methods["construct"]
     v, prop = cons.params[1].name, cons.params[2].name
     PC = Parents(cons)
@@ -856,16 +943,17 @@ def g5(ctx, res):
     new = ctx.func("Object.__new__")
     cls, v, prop = [p.name for p in new.params[:3]]
     nbody_ = V(ctx, new).body
-    loops = [n for n in nbody_ if isinstance(n, ast.For)]
-    ok = False
-    if len(loops) == 1:
-        lp = loops[0]
-        okloop = norm(lp.iter) == f"{cls}.validators" and not lp.orelse and \
-            not any(isinstance(x, (ast.Break, ast.Continue, ast.Return, ast.If, ast.Try)) for x in ast.walk(lp)) and \
-            has(f"{norm(lp.target)}({v}, {prop})", lp.body)
-        rest = nbody_[nbody_.index(lp) + 1:]
-        ok = okloop and len(rest) == 1 and has(f"return object.__new__({cls})", rest)
-    res.check(ok, new, "for validator in cls.validators: validator(value, property_); return object.__new__(cls)",
+    labels = {}
+    for p in enumerate_paths(nbody_):
+        if p.exit != "return" or p.exit_node.value is None:
+            continue
+        if norm(p.exit_node.value) != f"object.__new__({cls})":
+            continue
+        lab = _vc_label(p, f"{cls}.validators", None, prop, arg=v)
+        labels.setdefault(lab, set()).add(norm(p.exit_node.value))
+    verdict = True if set(labels) == {f"build({v})"} else (False if any(k != f"build({v})" for k in labels) else None)
+    res.judge(verdict, new, "for validator in cls.validators: validator(value, property_); return object.__new__(cls)",
+              detail={"exits": {str(k): sorted(x) for k, x in labels.items()}},
               reason="all object validators run before the instance is created")
     init = ctx.func("Object.__init__")
     vinit = V(ctx, init).body
@@ -914,12 +1002,14 @@ def g6(ctx, res):
     call = ctx.func("Element.__call__")
     v = call.params[1].name
 
+    prop_name = call.params[2].name
+
     def label_call(t, in_handler):
-        if t == "create(self.default)":
+        if t == f"self.construct(self.default, {prop_name})":
             return "build(default)"
         if t == "self.default":
             return "raw default (handler)" if in_handler else "raw default"
-        if t == f"create({v})":
+        if t == f"self.construct({v}, {prop_name})":
             return "build(value)"
         if t == v:
             return "value as is"
@@ -1150,30 +1240,63 @@ def g9(ctx, res):
               reason="schemas using an unsupported keyword are refused with the not-implemented error")
     if idx is None:
         return
+    def interprets(node):
+        """Does the statement look inside the schema dict (subscript, method, membership, iteration, passing it on)?"""
+        for x in ast.walk(node):
+            if isinstance(x, ast.Subscript) and norm(x.value) == s:
+                return f"subscript {norm(x)}"
+            if isinstance(x, ast.Attribute) and norm(x.value) == s:
+                return f"attribute {norm(x)}"
+            if isinstance(x, ast.Compare) and any(isinstance(o, (ast.In, ast.NotIn)) for o in x.ops) \
+                    and any(norm(c) == s for c in x.comparators):
+                return f"membership {norm(x)}"
+            if isinstance(x, (ast.For, ast.comprehension)) and norm(x.iter) == s:
+                return "iteration over the schema"
+            if isinstance(x, ast.Call) and dotted(x.func) not in ("isinstance", "bool", "type", "len", "id") \
+                    and any(norm(arg) == s for arg in list(x.args) + [k.value for k in x.keywords]):
+                return f"passes the schema to {norm(x.func)}"
+            if isinstance(x, ast.Starred) and norm(x.value) == s or isinstance(x, ast.keyword) and x.arg is None and norm(x.value) == s:
+                return "unpacks the schema"
+        return None
+
     n_before = 0
     for st in body[:idx]:
         if isinstance(st, ast.Expr) and isinstance(st.value, ast.Constant):
             continue  # docstring
         n_before += 1
-        ok = False
+        what = interprets(st)
+        reads = any(isinstance(x, ast.Name) and x.id == s for x in ast.walk(st))
+        verdict = None
         why = ""
-        if isinstance(st, ast.If) and always_exits(st.body) and not st.orelse:
+        if what is not None:
+            verdict = False
+            why = what
+        elif not reads:
+            verdict = True
+            why = "statement not reading the schema"
+        elif isinstance(st, ast.If) and not st.orelse and always_exits(st.body) \
+                and norm(st.test) in (f"not {s}", f"{s} == {{}}", f"len({s}) == 0", f"not len({s})"):
+            # an empty schema holds no keyword at all, so none that is unsupported
+            verdict = True
+            why = "empty-schema shortcut (no keyword present)"
+        elif isinstance(st, ast.If) and not st.orelse and always_exits(st.body):
             ia = isinstance_atom(st.test)
-            rets = [x for x in st.body if isinstance(x, ast.Return)]
-            if ia and ia[0] == s and ia[2] and ia[1] in (["bool"], ["Element"]) and len(st.body) == 1 and rets:
-                r = norm(rets[0].value)
+            if ia and ia[0] == s and ia[2] and all(t in ("bool", "Element") for t in ia[1]):
+                # non-dict schemas are dispatched before: the body may only use the value as a whole (truthiness / returning it)
+                verdict = True
+                why = "non-dict schema (boolean / already parsed element) pass-through"
                 if ia[1] == ["bool"]:
-                    ok = r in (f"Element() if {s} else Nothing()", f"Nothing() if not {s} else Element()")
-                    why = "boolean schema pass-through"
-                else:
-                    ok = r == s
-                    why = "already-parsed element pass-through"
-        elif isinstance(st, ast.Assign):
-            reads = [x for x in ast.walk(st.value) if isinstance(x, ast.Name) and x.id == s]
-            ok = not reads
-            why = "assignment not reading the schema"
-        res.check(ok, pe, st if not isinstance(st, ast.If) else f"if {norm(st.test)}: ...",
-                  reason=f"statement before the refusal test is a harmless {why or 'form'}" if ok else
+                    cases, opq = _bool_or_element_cases(st.body, s)
+                    if cases["True"] != {"Element()"} or cases["False"] != {"Nothing()"}:
+                        verdict = False if not opq else None
+                        why = f"boolean schema: true -> {sorted(cases['True'])}, false -> {sorted(cases['False'])}"
+                elif ia[1] == ["Element"]:
+                    rets = {norm(x.value) for x in ast.walk(st) if isinstance(x, ast.Return) and x.value is not None}
+                    if rets != {s}:
+                        verdict = None
+        res.judge(verdict, pe, st if not isinstance(st, ast.If) else f"if {norm(st.test)}: ...",
+                  detail={"why": why},
+                  reason=f"statement before the refusal test is harmless ({why})" if verdict else
                   "a statement that interprets the schema (or returns an element) runs BEFORE the unsupported-keyword test")
     res.stat("statements_before_test", n_before)
     # parse_element is the only door: every other parser function taking a schema is reached only from it
